@@ -101,6 +101,10 @@ def run(rep, tier, rng):
             continue
         item, derived = G.gen_type_item(rng)
         elems, shared = G.gen_trait_args(rng, derived)
+        if item.get("kind") == "enum" and rng.random() < 0.15:
+            # a trait that cannot be derived for an enum somewhere in the list: its own error, everything else as usual
+            elems.insert(rng.randrange(len(elems) + 1), rng.choice(["Neg", "Not", "Add", "SubAssign", "Deref"]))
+            rep.count("lists_with_a_trait_not_derivable_for_the_item")
         text = G.render(item)
         mode = rng.random()
         if len(elems) >= 2 and rng.random() < 0.2:
